@@ -1246,6 +1246,159 @@ func (w *bWorld) partialDischargeEpisode() {
 		strings.Join(outs, " | "))
 }
 
+// failedAttenuationEpisode: an Attenuate that would succeed on one (verified) permission token and
+// fails on a SIBLING: the caveats include a third-party caveat for a location the sibling already
+// has one for, or the sibling is a finalised proof at the permission location, or an attestation is
+// among the caveats.  All or nothing: not only Header() but also what the verified tokens clear
+// (Validate, AllowsAccess, the verified sets) must be exactly what it was.  The failing sibling comes
+// first, last or in between.
+func (w *bWorld) failedAttenuationEpisode() {
+	r, o := w.r, w.o
+	ctx := context.Background()
+	var bs []*bundle.Bundle
+	var ops, outs []string
+	defer func() {
+		if p := recover(); p != nil {
+			msg := strings.ReplaceAll(strings.SplitN(fmt.Sprint(p), "\n", 2)[0], " ", "_")
+			o.emit(fmt.Sprintf("(bundle.run (scope %s) %s %s %s %s)", bundleScope, w.sxKeys(), sxTrust(w.trusted), hs(w.permLoc), strings.Join(ops, " ")), "panic:"+msg)
+		}
+	}()
+	step := func(op, out string) {
+		ops = append(ops, op)
+		outs = append(outs, out+"~"+statesStr(bs))
+	}
+	kid := w.kids[0]
+	key := w.keys[string(kid)]
+	tp := w.tps[0]
+	mint := func() *macaroon.Macaroon {
+		m, err := macaroon.New(kid, w.permLoc, key)
+		if err != nil {
+			panic(err)
+		}
+		m.Add(&flyio.Organization{ID: 1, Mask: resset.ActionAll})
+		return m
+	}
+	variant := pick(r, []string{"3p.sibling", "3p.sibling", "3p.sibling", "proof.sibling", "attestation"})
+	// A: plain, will be verified
+	groupA := []string{b64tok(w.label(), mustEnc(mint()))}
+	if r.Chance(1, 3) { // a second plain token
+		groupA = append(groupA, b64tok(w.label(), mustEnc(mint())))
+	}
+	// the sibling on which the attenuation fails
+	var sib []string
+	sibState := "none"
+	if variant == "3p.sibling" || r.Chance(1, 3) {
+		mb := mint()
+		it, err := newTP(tp.ka, tp.loc)
+		if err != nil {
+			panic(err)
+		}
+		if err := mb.Add(it.cav); err != nil {
+			panic(err)
+		}
+		sib = append(sib, b64tok(w.label(), mustEnc(mb)))
+		sibState = "failed"
+		if r.Bool() { // discharged: the sibling verifies as well
+			_, dm, err := macaroon.DischargeTicket(tp.ka, tp.loc, it.tp.ticket)
+			if err != nil {
+				panic(err)
+			}
+			sib = append(sib, b64tok(w.label(), mustEnc(dm)))
+			sibState = "verified"
+		}
+	}
+	if variant == "proof.sibling" { // a finalised proof located at the permission location: Add refuses
+		it, err := newTP(tp.ka, "https://elsewhere.example")
+		if err != nil {
+			panic(err)
+		}
+		_, pm, err := macaroon.DischargeTicket(tp.ka, w.permLoc, it.tp.ticket)
+		if err != nil {
+			panic(err)
+		}
+		sib = append(sib, b64tok(w.label(), mustEnc(pm)))
+	}
+	pos := pick(r, []string{"first", "last", "middle"})
+	var parts []string
+	switch pos {
+	case "first":
+		parts = append(append(parts, sib...), groupA...)
+	case "last":
+		parts = append(append(parts, groupA...), sib...)
+	default:
+		parts = append(append(append(parts, groupA[:1]...), sib...), groupA[1:]...)
+	}
+	o.count("failatt." + variant + "." + pos + ".sibling-" + sibState)
+	hdr := "FlyV1 " + strings.Join(parts, ",")
+	mkReq := func(act resset.Action) (macaroon.Access, string) {
+		d := r.Dyn()
+		d.WF, d.NowSec, d.NowNsec, d.Org, d.Action = "", baseNow, 0, p64(1), act
+		return d.As("org"), d.Sx("org")
+	}
+	rAcc, rSx := mkReq(resset.ActionRead)
+	sets := func(i int) {
+		var p []string
+		bundle.ForEach(bs[i], func(vm *bundle.VerifiedMacaroon) { p = append(p, sxCavs(vm.Caveats.Caveats)) })
+		step(fmt.Sprintf("(sets %d)", i), "sets:"+strings.Join(p, "+"))
+	}
+	validate := func(i int) {
+		err := bs[i].Validate(rAcc)
+		o.count("failatt.validate." + flagStr(err))
+		step(fmt.Sprintf("(validate %d %s)", i, rSx), flagStr(err))
+	}
+	verify := func(i int) {
+		cs, err := bs[i].Verify(ctx, w.resolver())
+		step(fmt.Sprintf("(verify %d)", i), setsStr(cs, err))
+	}
+	b, perr := bundle.ParseBundle(w.permLoc, hdr)
+	bs = append(bs, b)
+	e := "n"
+	if perr != nil {
+		e = "e"
+	}
+	step(fmt.Sprintf("(parse %s default)", hs(hdr)), "new0:"+e)
+	verify(0)
+	validate(0)
+	sets(0)
+	// the attenuation that must fail as a whole
+	expired := &macaroon.ValidityWindow{NotBefore: 0, NotAfter: 1000}
+	items := []string{"(c " + sxCav(expired) + ")"}
+	cavs := []macaroon.Caveat{expired}
+	switch variant {
+	case "3p.sibling":
+		it, err := newTP(tp.ka, tp.loc)
+		if err != nil {
+			panic(err)
+		}
+		cavs = append(cavs, it.cav)
+		items = append(items, fmt.Sprintf("(new3p %s %s %s %s)", hs(it.tp.loc), hx(it.tp.ticket), hx(it.tp.rn), hx(make([]byte, 12))))
+	case "attestation":
+		a := auth.FlyioUserID(3)
+		cavs = append(cavs, &a)
+		items = append(items, "(c "+sxCav(&a)+")")
+	}
+	if r.Bool() { // the failing item first
+		cavs[0], cavs[len(cavs)-1] = cavs[len(cavs)-1], cavs[0]
+		items[0], items[len(items)-1] = items[len(items)-1], items[0]
+	}
+	aerr := b.Attenuate(cavs...)
+	o.count("failatt.attenuate." + flagStr(aerr))
+	step(fmt.Sprintf("(attenuate 0 %s)", strings.Join(items, " ")), flagStr(aerr))
+	// nothing may have changed: neither what is printed nor what the verified tokens clear
+	validate(0)
+	sets(0)
+	step(fmt.Sprintf("(count 0 (allows %s))", rSx), fmt.Sprint(b.Count(bundle.AllowsAccess(rAcc))))
+	step("(header 0)", hs(b.Header()))
+	bs = append(bs, b.Clone())
+	step("(clone 0)", "new1")
+	verify(1)
+	validate(1)
+	verify(0)
+	validate(0)
+	o.emit(fmt.Sprintf("(bundle.run (scope %s) %s %s %s %s)", bundleScope, w.sxKeys(), sxTrust(w.trusted), hs(w.permLoc), strings.Join(ops, " ")),
+		strings.Join(outs, " | "))
+}
+
 // ---- flyio/bundle.go ----
 
 // flyioEpisode: a bundle parsed with flyio.ParseBundle(WithFilter) from tokens of the four Fly.io
@@ -1487,6 +1640,7 @@ func famBundle(r *Rng, o *Out, tier string) {
 		}
 		w.tpAttenuationEpisode()
 		w.partialDischargeEpisode()
+		w.failedAttenuationEpisode()
 		flyioEpisode(r, o)
 	}
 }
